@@ -19,7 +19,11 @@ func init() {
 
 // nondeterminism sources other than iteration order
 var ordSourceCalls = []string{"time.Now", "time.Since", "time.Until", "math/rand.", "math/rand/v2.", "crypto/rand.", "os.Getpid", "os.Getppid", "os.Hostname", "os.Environ", "os.Getenv", "os.LookupEnv", "os.Getwd",
-	"runtime.NumCPU", "runtime.GOMAXPROCS", "runtime.NumGoroutine", "os.UserHomeDir", "os.TempDir"}
+	"runtime.NumCPU", "runtime.GOMAXPROCS", "runtime.NumGoroutine", "os.UserHomeDir", "os.TempDir",
+	// hash/maphash has no deterministic seed: every value it produces differs between processes
+	"hash/maphash.", "(*hash/maphash.", "(hash/maphash.",
+	// iteration in map order behind an API (the ORD engine sees only `range m`)
+	"(*sync.Map).Range", "(reflect.Value).MapKeys", "(reflect.Value).MapRange", "(*reflect.MapIter).Next", "maps.Keys", "maps.Values", "maps.All"}
 
 func scopeOf(p *core.Program, entries [][2]string) (map[*ssa.Function]bool, int) {
 	var es []*ssa.Function
@@ -654,16 +658,27 @@ func srcRule(r *core.Run, rule string, scope map[*ssa.Function]bool, allowGorout
 					r.Fail(rule, fnm+"#send", in.Pos(), "channel send on the fingerprint path")
 				}
 			}
+			if cv, ok := in.(*ssa.Convert); ok {
+				if bt, isB := cv.Type().Underlying().(*types.Basic); isB && bt.Kind() == types.Uintptr {
+					if ft, isP := cv.X.Type().Underlying().(*types.Basic); isP && ft.Kind() == types.UnsafePointer {
+						r.Fail(rule, fnm+"#address", in.Pos(), "an address is converted to an integer: addresses differ between runs")
+					}
+				}
+			}
 			c := core.CallOf(in)
 			if c == nil {
 				return
 			}
 			name := core.CalleeName(c)
 			for _, src := range ordSourceCalls {
-				if name == src || (strings.HasSuffix(src, ".") && strings.HasPrefix(name, src)) {
+				if name == src || (strings.HasSuffix(src, ".") && strings.HasPrefix(name, src)) || (strings.HasPrefix(src, "maps.") && strings.HasPrefix(name, src+"[")) {
 					// where does the value go? allowed: concurrency limits, diagnostics, explicit time fields, ID generation outside reports
 					if name == "os.Environ" && feedsLoaderEnv(p, fn) {
 						r.OK(rule, fnm+"#"+name, in.Pos(), "ambient environment is only filtered into the hardened loader environment (decided by C15)")
+						continue
+					}
+					if strings.HasPrefix(name, "maps.") && onlyIntoSorted(in) {
+						r.OK(rule, fnm+"#"+src, in.Pos(), "the map iterator is consumed only by slices.Sorted")
 						continue
 					}
 					if allowedSourceUse(p, in, name) {
@@ -732,6 +747,30 @@ func srcRule(r *core.Run, rule string, scope map[*ssa.Function]bool, allowGorout
 			r.Check(okUse, rule, core.FuncName(fn)+"#position-use", in.Pos(), "source positions flow only into the position fields of the result", "a source position (absolute file name / line) flows into something other than the result's position fields")
 		})
 	}
+}
+
+// onlyIntoSorted: the iterator returned by maps.Keys/Values is consumed by slices.Sorted and nothing else.
+func onlyIntoSorted(in ssa.Instruction) bool {
+	v, ok := in.(ssa.Value)
+	if !ok || v.Referrers() == nil {
+		return false
+	}
+	n := 0
+	for _, ref := range *v.Referrers() {
+		if _, isDbg := ref.(*ssa.DebugRef); isDbg {
+			continue
+		}
+		c := core.CallOf(ref)
+		if c == nil {
+			return false
+		}
+		cn := core.CalleeName(c)
+		if cn != "slices.Sorted" && !strings.HasPrefix(cn, "slices.Sorted[") {
+			return false
+		}
+		n++
+	}
+	return n > 0
 }
 
 func allowedSourceUse(p *core.Program, in ssa.Instruction, name string) bool {
